@@ -275,7 +275,7 @@ UNIT = {
                   "std_collect_rename_map(renames)", 1, "S"),
                  # C1: closures get typed heads and contracts, their BODIES are the real text (captured); the adapters are called
                  # through the wrappers above.  The enclosing arm is part of the anchor (only / except use the same adapter).
-                 ("X6", r"format!\(\"\{\}\{\}\", (\w+), (\w+)\)", r"std_concat(\1, \2)", 1),
+                 ("X6", r"format!\(\"\{\}\{\}\", &?(\w+), &?(\w+)\)", r"std_concat(\1, \2)", 1),
                  ("X3s", r"(ImportSetBody::Only\(import_set, identifiers\) => \{\s*let \w+ = [^;]*;\s*)Ok\(((?:[^;()]|\((?:[^()]|\([^()]*\))*\))+?)\s*\.into_iter\(\)\s*\.filter\(\|\(name, _\)\| ([^\n]+?)\)\s*\.collect\(\)\)",
                   r"\1Ok(std_filter_collect(\2, "
                   r"|b: &(String, Value<R>)| -> (k: bool) ensures k == listed(identifiers@, b.0@) { let (name, _x) = b; \3 }, "
